@@ -179,3 +179,27 @@ Proof.
   pose proof PI_RGT_0. split; [lra|]. split; [lra|].
   exists (mkProj 0 (-1) (-1) 0 0). cbn. repeat split; lra.
 Qed.
+
+(* ---- syntactic tie of the closed-form leaves to the current source (gen/SrcFuns.v is regenerated from the clang AST
+   of src/geodesy/LambertConverter.cpp and EarthEllipsoid.cpp on every run) ---- *)
+From Romea Require Import SrcTie.
+From Romea.gen Require Import SrcFuns.
+
+Theorem C03_source_tie_isometric_latitude : forall lat e,
+  src_isometricLatitude ROps lat e = isometricLatitude ROps lat e.
+Proof. exact tie_isometricLatitude. Qed.
+
+Theorem C03_source_tie_grande_normale : forall lat a e,
+  src_grandeNormale ROps lat a e = grandeNormale ROps lat a e.
+Proof. exact tie_grandeNormale. Qed.
+
+Theorem C03_source_tie_toLambert : forall (pr : projection (T:=R)) e (w : wgs84 (T:=R)),
+  src_toLambert ROps (w_lon w) (w_lat w) e (p_xs pr) (p_c pr) (p_n pr) (p_lon0 pr) (p_ys pr)
+  = (v2x (toLambert ROps pr e w), v2y (toLambert ROps pr e w)).
+Proof. exact tie_toLambert. Qed.
+
+Theorem C03_source_tie_radii : forall lat (el : ellipsoid (T:=R)),
+  src_meridionalRadius ROps lat (el_a el) (el_e2 el) (el_e el) = meridionalRadius ROps el lat /\
+  src_transversalRadius ROps lat (el_a el) (el_e el) = transversalRadius ROps el lat.
+Proof. intros lat el. split; [apply tie_meridionalRadius|apply tie_transversalRadius]. Qed.
+Print Assumptions C03_source_tie_toLambert.
